@@ -102,7 +102,7 @@ ADDED = {
     "C09": " The MQTT slice has flood episodes that spend the transport's whole transmit allowance before the quiet period and the probe; the alphabet additions of C07 apply.",
     "C10": " Configurations include the predicted gateway (known_list HGI entry) being block-listed as well. Scenario 'mute stick' (never identified: the placeholder id in received packets is an unlisted id); device creation is judged in lax restores as well.",
     "C11": " Pattern 'givers-up': callers withdraw requests while the transport holds them back; what is offered afterwards must still be written.",
-    "C12": " Fault plans include channel jams (every transmission of one kind of request fails, so the send itself fails); the quick tier walks through all plans.",
+    "C12": " Some faulted scenarios stop and start the gateway object between polling rounds. Fault plans include channel jams (every transmission of one kind of request fails, so the send itself fails); the quick tier walks through all plans.",
     "C14": " Part F: packet logs whose stamps step back (DST end, NTP) - every single-code attribute written after the step reports its last-received message.",
     "C15": " Generated schemas have up to three UFH controllers. A schema that cannot be obtained at all is a refutation; histories include fault-log reads by other requesters and an 'old head' (first packets 25-47 h older).",
     "C16": " Histories include an 'old head' (first packets 25-47 h older than the rest, honoured in full on the port stack) and fault-log reads by other requesters.",
